@@ -21,9 +21,16 @@
                                        → ok <one of D I X U per authority> | no-include | panic | unsupported
                                          (a list is `none` when the flag is not given; D = 403 by deny-domains,
                                           I = CONNECT intercepted, X = direct, U = through the upstream proxy)
+
+  concurrent use (Model/C17Conc.lean); a schedule is three parallel lists, one entry per call:
+
+    conc <rules> <hosts> <callers> <via-inverse bits> <host indices>
+                                       → ok <bits: the answer to every call, in schedule order> | no-include | panic | unsupported
+                                         (`runSchedule`: the calls served in this order as transitions of the shared matcher)
 -/
 import FwdVerif.Model.C17
 import FwdVerif.Model.C17Subject
+import FwdVerif.Model.C17Conc
 
 namespace FwdVerif
 namespace C17
@@ -183,6 +190,30 @@ def handleSubject : List String → Option String
     | _, _, _, _, _ => some "bad-op"
   | _ => none
 
+def mkSchedule (hs : List Bytes) : List Nat → List Bool → List Nat → Option Schedule
+  | c :: cs, i :: is, h :: ix =>
+    match hs[h]?, mkSchedule hs cs is ix with
+    | some host, some rest => some ((c, { viaInverse := i, host := host }) :: rest)
+    | _, _ => none
+  | [], [], [] => some []
+  | _, _, _ => none
+
+def handleConc : List String → Option String
+  | ["conc", rules, hosts, callers, invs, idx] =>
+    match decodeRules rules, bytesList hosts, natList callers, unbits invs, natList idx with
+    | some l, some hs, some cs, some is, some ix =>
+      if !hs.all isAscii || someUnsupported l then some "unsupported"
+      else match mkSchedule hs cs is ix with
+        | none => some "bad-op"
+        | some sched =>
+          match fromList l with
+          | .ok m => some s!"ok {bits ((runSchedule m sched).map (·.2))}"
+          | .noInclude => some "no-include"
+          | .panic .unsupported => some "unsupported"
+          | .panic .syntax => some "panic"
+    | _, _, _, _, _ => some "bad-op"
+  | _ => none
+
 /-- `eval <rules> <hosts> <observed>` = the answers of `match`, `rules`, `holds` and `risk` in one
     round trip, separated by ` | ` -/
 def handle : List String → String
@@ -201,7 +232,10 @@ def handle : List String → String
   | req =>
     match handleSubject req with
     | some a => a
-    | none => handle1 req
+    | none =>
+      match handleConc req with
+      | some a => a
+      | none => handle1 req
 
 end C17
 end FwdVerif
